@@ -235,7 +235,7 @@ func acceptableReconstructions(toks []Tok, vals []string) []string {
 }
 
 func check(c Case) vk.Verdict {
-	if strings.HasPrefix(c.Path, "//") || strings.ContainsAny(c.Path, "?#") || c.Path == "" || c.Path[0] != '/' {
+	if strings.ContainsAny(c.Path, "?#") || c.Path == "" || c.Path[0] != '/' {
 		return vk.Verdict{Skip: true}
 	}
 	app := fiber.New(fiber.Config{CaseSensitive: c.CS, StrictRouting: c.Strict, UnescapePath: c.Unesc})
@@ -289,7 +289,7 @@ func check(c Case) vk.Verdict {
 		c.Prior = nil
 		if i < len(main.Prior) {
 			c.Path, c.Filling, c.Kind = main.Prior[i].Path, main.Prior[i].Filling, "filling"
-			if strings.HasPrefix(c.Path, "//") || strings.ContainsAny(c.Path, "?#") || c.Path == "" || c.Path[0] != '/' {
+			if strings.ContainsAny(c.Path, "?#") || c.Path == "" || c.Path[0] != '/' {
 				continue
 			}
 		}
